@@ -85,6 +85,7 @@ Recv(e, p) ==
   /\ UNCHANGED <<fwd, sinks, srcs, open>>
 
 Send(e) ==
+  /\ WithSend
   /\ obs' = Obs(<<"send", e>>, "none", IF e \in E THEN {<<e, Datum(e), 1>>} ELSE {}, {})
   /\ UNCHANGED <<fwd, sinks, srcs, open>>
 
@@ -101,6 +102,7 @@ Close(e) ==
 \* one spin; L = the endpoints whose receive position yields a message
 Spin(L) ==
   LET live == L \cap open IN
+  /\ WithSpin
   /\ obs' = Obs(<<"spin", L>>, "none",
                 UNION {FwdBag(e) : e \in live} \cup {<<t[1], SrcVal(t[2]), 1>> : t \in srcs},
                 UNION {SinkBag(e) : e \in live})
@@ -113,8 +115,8 @@ Next == \/ \E i \in N, o \in N : SetForward(i, o)
         \/ \E e \in N, p \in Answers : Recv(e, p)
         \/ \E e \in N : Open(e)
         \/ \E e \in N : Close(e)
-        \/ (WithSend /\ \E e \in N : Send(e))
-        \/ (WithSpin /\ \E L \in SUBSET E : Spin(L))
+        \/ \E e \in N : Send(e)
+        \/ \E L \in SUBSET E : Spin(L)
 
 Spec == Init /\ [][Next]_vars
 
